@@ -67,6 +67,21 @@ func (c *Case) compile() (*pongo2.Template, px.Out) {
 	return tpl, out
 }
 
+// extraRoots is set by the instrumented build (package-level variables of pongo2).
+var extraRoots func() map[string]any
+
+func roots(tpl *pongo2.Template) map[string]any {
+	return map[string]any{"tpl": tpl}
+}
+
+// package-level variables are snapshotted once before and once after the whole history
+func pkgSnapshot() *deep.Snapshot {
+	if extraRoots == nil {
+		return nil
+	}
+	return deep.Take(extraRoots())
+}
+
 func (c *Case) Exec(t *eng.T) {
 	// reference: a freshly compiled template per context
 	fresh := make([]string, len(ctxNames))
@@ -81,7 +96,8 @@ func (c *Case) Exec(t *eng.T) {
 	}
 	t.Nontrivial()
 	tpl, _ := c.compile()
-	before := deep.Take(map[string]any{"tpl": tpl})
+	before := deep.Take(roots(tpl))
+	pkgBefore := pkgSnapshot()
 	t.AddStates(1)
 	for step, ci := range c.History {
 		got := px.Exec(tpl, mkCtx(ci)).String()
@@ -94,7 +110,7 @@ func (c *Case) Exec(t *eng.T) {
 			t.Fail("differs:"+c.Label, "%s: after the history %v the execution with context %s gives %s; a freshly compiled template gives %s", c.ID(), hist[:step], ctxNames[ci], got, fresh[ci])
 			return
 		}
-		after := deep.Take(map[string]any{"tpl": tpl})
+		after := deep.Take(roots(tpl))
 		if after.Hash() != before.Hash() {
 			d := deep.Diff(before, after, 3)
 			field := "?"
@@ -102,6 +118,20 @@ func (c *Case) Exec(t *eng.T) {
 				field = deep.FieldOf(d[0])
 			}
 			t.Fail("mutates:"+field, "%s: execution %d (context %s) changed the compiled template: %s", c.ID(), step+1, ctxNames[ci], strings.Join(d, " ; "))
+			return
+		}
+	}
+	if pkgBefore != nil {
+		if pkgAfter := pkgSnapshot(); pkgAfter.Hash() != pkgBefore.Hash() {
+			d := deep.Diff(pkgBefore, pkgAfter, 3)
+			field := "?"
+			if len(d) > 0 {
+				field = deep.FieldOf(d[0])
+				if i := strings.Index(d[0], "<"); i > 0 && strings.HasPrefix(d[0], "pkg.") {
+					field = d[0][:i] + ":" + field
+				}
+			}
+			t.Fail("mutates-package-variable:"+field, "%s: executing the history changed a package-level variable of pongo2: %s", c.ID(), strings.Join(d, " ; "))
 			return
 		}
 	}
@@ -241,9 +271,29 @@ func init() {
 		Rule: "explicit-state exploration of execution histories: for every generated program and option setting the template is compiled once and EVERY history of executions up to the length bound over a 4-context alphabet (two succeeding contexts driving different branches and lengths, one failing mid-way, nil) is run on it. State = canonical deep snapshot (reflect+unsafe walk of everything reachable from the *Template: nodes, tokens, blocks, macros, set, parents, children, included templates). Invariant: the state after every execution equals the state before the first; differential oracle from non-initial states: (output, error) of each execution equals that of a freshly compiled template on the same context. states = compiled templates explored, transitions = executions. Non-trivial: the program compiles.",
 		Assumptions: []string{
 			"constructs documented to depend on clock, randomness or map order are used only in deterministic forms (now fake, lorem without random, no multi-key unsorted maps)",
-			"the quantifier's clause 'statically: all functions reachable from Execute' is static analysis (another family): not covered; unexported package-level variables are covered only through their effect on later executions (differential oracle)",
+			"the quantifier's clause 'statically: all functions reachable from Execute' is static analysis (another family): not covered",
+			"package-level variables of pongo2 are part of the snapshot (the check runs on the overlay-instrumented build, which generates pointers to all of them)",
 			"internals of sync, regexp, log, os, io values are compared by identity",
 		},
 		Run: run,
 	})
 }
+
+// ProgramList exposes the program corpus (single constructs with a failure point) to other checks (C05).
+func ProgramList() (names []string, files []map[string]string) {
+	for _, p := range programs() {
+		if p.src == "" {
+			continue
+		}
+		f := map[string]string{"/main": p.src + failPoint + "\ntail\n" + p.src}
+		for k, v := range p.files {
+			f[k] = v
+		}
+		names = append(names, p.name)
+		files = append(files, f)
+	}
+	return
+}
+
+// MkCtx exposes the context alphabet.
+func MkCtx(i int) pongo2.Context { return mkCtx(i) }
